@@ -101,17 +101,17 @@ func (s *jwtSigner) load() error {
 			CausedBy(err)
 	}
 
-	var kse *keystore.Entry
-
-	if len(s.keyID) == 0 {
-		kse, err = ks.Entries()[0], nil
-	} else {
-		kse, err = ks.GetKey(s.keyID)
-	}
-
+	kse, err := keystore.SelectKey(ks, s.keyID)
 	if err != nil {
 		return errorchain.NewWithMessage(heimdall.ErrConfiguration,
 			"failed retrieving key from key store").CausedBy(err)
+	}
+
+	for _, entry := range ks.Entries() {
+		if err = entry.CheckJOSESupport(); err != nil {
+			return errorchain.NewWithMessage(heimdall.ErrConfiguration,
+				"key store contains a key which cannot be used for JWT signing purposes").CausedBy(err)
+		}
 	}
 
 	if len(kse.CertChain) != 0 {
